@@ -15,6 +15,8 @@ Each obligation:
             list of argv templates for /verif/witness; run only when the harness fails
 """
 
+import os, re
+
 M = "react::"
 
 def _trk(prefix, mod, typ, src, kinds, drain=True):
@@ -26,7 +28,7 @@ def _trk(prefix, mod, typ, src, kinds, drain=True):
         dict(id=f"{prefix}.step", engine="k1", harness=f"{M}{mod}::verif_h::{prefix}_tracker_step",
              props=["C12", "C03", "C04", "C11"], expect="pass",
              functions=[f"{typ}::prepare", f"{typ}::start", f"{typ}::end", f"{typ}::is_reacting"], src=[src],
-             bounds="pending list <= 4 entries (quick) / <= 6 (thorough); 3 system ids; distinct payload tags; "
+             bounds="pending list <= 4 entries; 3 system ids; distinct payload tags; "
                     "Vec pre-reserved (no reallocation inside the harness)",
              claim=step_claim, witness=wit),
         dict(id=f"{prefix}.witness", engine="k1", harness=f"{M}{mod}::verif_h::{prefix}_tracker_witness",
@@ -74,7 +76,7 @@ OBLIGATIONS += [
          functions=["AutoDespawner::new", "AutoDespawner::prepare", "AutoDespawner::try_recv", "AutoDespawnSignal::new",
                     "AutoDespawnSignal::clone", "AutoDespawnSignal::entity", "Drop for AutoDespawnSignalInner"],
          src=["src/ecs/auto_despawn.rs"],
-         bounds="2 entities; entity A: original + <=3 clones (quick) / <=5 (thorough), entity B: 1 signal; every "
+         bounds="2 entities; entity A: original + <=3 clones, entity B: 1 signal; every "
                 "drop order and interleaving; single thread",
          claim="an entity is receivable by the collector iff all clones of its signal have been dropped, and then "
                "exactly once; other entities' signals do not interfere"),
@@ -97,14 +99,14 @@ OBLIGATIONS += [
          functions=["EntityReactors::iter_rtype", "EntityReactors::count", "EntityReactors::iter_reactors",
                     "ReactorHandle::sys_command", "PartialEq for EntityReactionType"],
          src=["src/react/utils.rs"],
-         bounds="table <= 4 entries (quick) / <= 7 (thorough, spills SmallVec's inline 6); 3 reactor ids; 8 reaction "
+         bounds="table <= 3 entries; 3 reactor ids; 8 reaction "
                 "types = 4 kinds x 2 type ids",
          claim="iter_rtype(t) yields exactly the reactors registered under kind AND type id t, in registration "
                "order; count(t) equals their number"),
     dict(id="entreactors.remove", engine="k1", harness=f"{M}utils::verif_h::entreactors_remove_complete_local",
          props=["C06"], expect="pass", functions=["EntityReactors::remove", "EntityReactors::count"],
          src=["src/react/utils.rs"],
-         bounds="table <= 4 (quick) / <= 7 (thorough) entries, duplicates allowed; any (rtype, reactor) pair",
+         bounds="table <= 3 entries, duplicates allowed; any (rtype, reactor) pair",
          claim="remove(rtype, id) deletes every entry of that reactor under that reaction type, nothing else, "
                "keeps order of survivors; second application and absent pairs are no-ops"),
     dict(id="entreactors.handles", engine="k1", harness=f"{M}utils::verif_h::entreactors_handle_conservation",
@@ -136,7 +138,7 @@ OBLIGATIONS += [
     dict(id="cmdqueue.fifo", engine="k1", harness=f"{M}command_queue::verif_h::cmdqueue_fifo",
          props=["C12", "C11"], expect="pass", functions=["CobwebCommandQueue::push", "CobwebCommandQueue::pop_front",
                                                         "CobwebCommandQueue::append"],
-         src=["src/react/command_queue.rs"], bounds="<= 3 (quick) / <= 5 (thorough) commands, symbolic length",
+         src=["src/react/command_queue.rs"], bounds="<= 3 commands, symbolic length",
          claim="pop_front returns arrival order; appending an empty list changes nothing"),
     dict(id="cmdqueue.witness", engine="k1", harness=f"{M}command_queue::verif_h::cmdqueue_witness",
          props=["C12", "C11", "C02"], expect="fail", functions=[], src=["src/react/command_queue.rs"], bounds="-",
@@ -180,9 +182,250 @@ OBLIGATIONS += [
 ]
 
 
+# --------------------------------------------------------------------------------------------------------------
+# engine K2: the same real source compiled against the typed environment model /verif/envstub/bevy
+# --------------------------------------------------------------------------------------------------------------
+RC = "react::react_cache::verif_h::"
+RC_SRC = ["src/react/react_cache.rs", "src/react/utils.rs", "src/react/commands.rs"]
+
+
+def k2(id, harness, props, functions, src, bounds, claim, tiers=("quick", "thorough"), expect="pass", witness=None):
+    d = dict(id=id, engine="k2", harness=harness, props=list(props), expect=expect, functions=functions, src=src,
+             bounds=bounds, claim=claim, tiers=list(tiers))
+    if witness:
+        d["witness"] = witness
+    return d
+
+
+_BC = "ReactCache::schedule_broadcast_reaction: from a directly written broadcast table ({}) exactly one " \
+      "BroadcastEvent reaction per registration of THIS event type is queued, in registration order, all sharing one " \
+      "data entity whose reader counter equals their number and which holds the event's payload; with no listener " \
+      "nothing is queued and no data entity is reserved"
+for (ka, kb, tiers) in [(2, 1, ("quick", "thorough")), (0, 2, ("quick", "thorough")), (3, 2, ("thorough",)),
+                        (1, 0, ("thorough",)), (0, 0, ("thorough",))]:
+    OBLIGATIONS.append(k2(f"rc.broadcast_{ka}_{kb}", f"{RC}rc_broadcast_{ka}_{kb}", ["C01", "C05", "C03"],
+                          ["ReactCache::schedule_broadcast_reaction", "DataEntityCounter::new", "BroadcastEventData::new",
+                           "ReactorHandle::sys_command"], RC_SRC + ["src/react/event_readers.rs"],
+                          f"shape: {ka} listeners of the event type, {kb} of another type; reactor ids symbolic (4 values); payload any u8",
+                          _BC.format(f"{ka}+{kb} entries"), tiers))
+OBLIGATIONS.append(k2("rc.broadcast_witness", f"{RC}rc_broadcast_witness", ["C01", "C05"], [], RC_SRC, "-", "vacuity twin",
+                      expect="fail"))
+for (ka, kb, tiers) in [(2, 1, ("quick", "thorough")), (0, 1, ("thorough",)), (3, 0, ("thorough",))]:
+    OBLIGATIONS.append(k2(f"rc.resource_{ka}_{kb}", f"{RC}rc_resource_{ka}_{kb}", ["C01"],
+                          ["ReactCache::schedule_resource_mutation_reaction"], RC_SRC,
+                          f"shape: {ka} listeners of the resource type, {kb} of another, 1 broadcast listener keyed by the same type id; reactor ids symbolic",
+                          "exactly one Resource reaction per registration of this resource type, in order; other resource "
+                          "types and other tables contribute nothing", tiers))
+for (ne, ka, kb, dead, tiers) in [(2, 1, 1, False, ("quick", "thorough")), (1, 0, 1, False, ("thorough",)),
+                                  (0, 2, 0, False, ("thorough",)), (0, 0, 1, False, ("quick", "thorough"))]:
+    OBLIGATIONS.append(k2(f"rc.entity_event_{ne}_{ka}_{kb}", f"{RC}rc_entity_event_{ne}_{ka}_{kb}", ["C01", "C05", "C03"],
+                          ["ReactCache::schedule_entity_event_reaction", "EntityReactors::iter_rtype", "EntityReactors::count",
+                           "EntityReactors::insert"], RC_SRC + ["src/react/event_readers.rs"],
+                          f"shape: target with {ne} entity-scoped listeners of the event type interleaved with a listener of another "
+                          f"event type and a mutation reactor; another entity with a listener; {ka}/{kb} type-wide listeners of this/"
+                          "another event type; reactor ids symbolic; payload any u8",
+                          "entity-scoped listeners of the TARGET for THIS event type, then type-wide listeners, each in "
+                          "registration order, carry the target; counter = their number; nothing for other entities/types/kinds", tiers))
+OBLIGATIONS.append(k2("rc.entity_event_dead", f"{RC}rc_entity_event_dead_2_0_1", ["C18", "C01"],
+                      ["ReactCache::schedule_entity_event_reaction"], RC_SRC,
+                      "target symbolically alive or despawned before the event is applied; 2 entity-scoped listeners, 1 type-wide listener of another type",
+                      "an entity event aimed at a despawned entity schedules nothing on behalf of the dead target's own listeners and "
+                      "does not panic", ("quick", "thorough")))
+for (nm, which, ne, ki, km, kr, tiers) in [("insertion", 0, 2, 1, 1, 1, ("quick", "thorough")), ("mutation", 1, 2, 1, 1, 1, ("quick", "thorough")),
+                                          ("insertion", 0, 1, 2, 0, 1, ("thorough",)), ("mutation", 1, 0, 0, 2, 1, ("thorough",)),
+                                          ("insertion", 0, 0, 0, 1, 1, ("thorough",))]:
+    OBLIGATIONS.append(k2(f"rc.{nm}_{ne}_{ki}_{km}_{kr}", f"{RC}rc_{nm}_{ne}_{ki}_{km}_{kr}", ["C01", "C03"],
+                          [f"ReactCache::schedule_{nm}_reaction", "schedule_entity_reaction_impl", "EntityReactors::iter_rtype"],
+                          RC_SRC,
+                          f"shape: target with {ne} entity-scoped {nm} reactors for the component among reactors of the other kinds and of "
+                          f"another component; type-wide lists insertion/mutation/removal = {ki}/{km}/{kr} for this component, 1 each for another; ids symbolic",
+                          f"a component {nm} schedules exactly the entity-scoped {nm} reactors of that component on that entity, then the "
+                          f"type-wide {nm} list of that component (not the sibling lists, not other components), in order, naming the entity "
+                          "and the reaction type", tiers))
+
+_RV = ["ReactCache::revoke_broadcast_reactor", "ReactCache::revoke_resource_mutation_reactor", "ReactCache::revoke_any_entity_event_reactor"]
+for (nm, ka, kb, tiers) in [("broadcast", 3, 1, ("thorough",)), ("broadcast", 2, 1, ("quick", "thorough")), ("resource", 2, 1, ("thorough",)),
+                            ("any_event", 2, 1, ("thorough",))]:
+    OBLIGATIONS.append(k2(f"rc.revoke_{nm}_{ka}_{kb}", f"{RC}rc_revoke_{nm}_{ka}_{kb}", ["C06", "C01"], _RV, RC_SRC,
+                          f"shape: key A with {ka} entries, key B with {kb}; reactor ids and the revoked id symbolic (4 values, duplicates allowed)",
+                          "the revoke removes exactly the first entry of that reactor under that key; neighbours keep their order; other keys are "
+                          "untouched; an emptied key is dropped, a non-empty one never; an absent reactor changes nothing", tiers))
+OBLIGATIONS.append(k2("rc.revoke_broadcast_absent_key", f"{RC}rc_revoke_broadcast_absent_key", ["C06"], _RV, RC_SRC,
+                      "key A with 2 entries; revoke names a key that is not in the table", "revoking under an absent key changes nothing",
+                      ("thorough",)))
+OBLIGATIONS.append(k2("rc.revoke_complete", f"{RC}rc_revoke_complete_3", ["C06"], ["ReactCache::revoke_broadcast_reactor"], RC_SRC,
+                      "3 entries under one key, reactor ids symbolic (duplicates allowed)",
+                      "completeness as the property words it: after the revoke no registration of the reactor remains under the key "
+                      "(expected to fail for duplicate registrations: finding F2)", ("quick", "thorough"),
+                      witness=[["revoke_dup", "world_reactor"], ["revoke_dup", "with_twice"]]))
+for (ki, km, kr, tiers) in [(1, 1, 1, ("thorough",)), (1, 0, 0, ("quick", "thorough")), (1, 0, 1, ("quick", "thorough")), (0, 1, 1, ("thorough",))]:
+    OBLIGATIONS.append(k2(f"rc.revoke_component_{ki}_{km}_{kr}", f"{RC}rc_revoke_component_{ki}_{km}_{kr}", ["C06", "C01", "C07", "C14"],
+                          ["ReactCache::revoke_component_reactor", "ComponentReactors::is_empty"], RC_SRC,
+                          f"shape: component A with insertion/mutation/removal lists of {ki}/{km}/{kr}, component B with 1/0/0; ids, revoked id and "
+                          "revoked kind symbolic",
+                          "only the addressed list of the addressed component loses (at most) the revoked reactor's first entry; the component's "
+                          "map entry is dropped iff all three lists are empty afterwards (sibling lists are never deleted with it)", tiers))
+OBLIGATIONS.append(k2("rc.revoke_despawn_2_1", f"{RC}rc_revoke_despawn_2_1", ["C06", "C18"], ["ReactCache::revoke_despawn_reactor"], RC_SRC,
+                      "two watched entities with 2/1 despawn reactors; revoked id symbolic; key = either entity or a stale id of the same index",
+                      "despawn reactors are revoked per entity id (index and generation); a stale id is a no-op", ("quick", "thorough")))
+
+def _k2h(mod, name):
+    return f"{mod}::verif_h::{name}"
+
+
+OBLIGATIONS += [
+    k2("gc.dead_in_front", _k2h("ecs::auto_despawn", "gc_dead_id_in_front_of_released"), ["C10", "C07", "C18"],
+       ["garbage_collect_entities", "AutoDespawner::try_recv", "AutoDespawner::prepare", "Drop for AutoDespawnSignalInner"],
+       ["src/ecs/auto_despawn.rs"],
+       "4 entities (one with a child); first released entity symbolically already despawned by other means; second symbolically released or held; third has a live clone",
+       "the collector despawns exactly the released entities with their descendants, skips already-dead ids without stopping, never touches an "
+       "entity with a live signal clone, and is idempotent"),
+    k2("gc.released_and_held", _k2h("ecs::auto_despawn", "gc_released_and_held"), ["C10", "C07", "C18"],
+       ["garbage_collect_entities", "AutoDespawner::try_recv", "AutoDespawner::prepare", "Drop for AutoDespawnSignalInner"],
+       ["src/ecs/auto_despawn.rs"],
+       "4 entities (one with a child); first released entity symbolically already despawned by other means; second symbolically released or held; third has a live clone",
+       "the collector despawns exactly the released entities with their descendants, skips already-dead ids without stopping, never touches an "
+       "entity with a live signal clone, and is idempotent"),
+    k2("gc.all_released", _k2h("ecs::auto_despawn", "gc_all_released"), ["C10", "C07", "C18"],
+       ["garbage_collect_entities", "AutoDespawner::try_recv", "AutoDespawner::prepare", "Drop for AutoDespawnSignalInner"],
+       ["src/ecs/auto_despawn.rs"],
+       "4 entities (one with a child); first released entity symbolically already despawned by other means; second symbolically released or held; third has a live clone",
+       "the collector despawns exactly the released entities with their descendants, skips already-dead ids without stopping, never touches an "
+       "entity with a live signal clone, and is idempotent"),
+    k2("despawn.register_dead", _k2h("react::reaction_triggers_impl", "despawn_register_dead_entity"), ["C08", "C18", "C07"],
+       ["register_despawn_reactor", "ReactCache::register_despawn_reactor", "ReactCache::despawn_sender"],
+       ["src/react/reaction_triggers_impl.rs", "src/react/react_cache.rs"],
+       "watched entity symbolically dead / alive without tracker / alive with a tracker but no map entry; ref-counted handle",
+       "dead entity: nothing stored, handle released (reactor collected); live entity: one handle stored, one tracker, an existing tracker "
+       "is never replaced (no spurious despawn report)"),
+    k2("despawn.register_fresh", _k2h("react::reaction_triggers_impl", "despawn_register_fresh_entity"), ["C08", "C18", "C07"],
+       ["register_despawn_reactor", "ReactCache::register_despawn_reactor", "ReactCache::despawn_sender"],
+       ["src/react/reaction_triggers_impl.rs", "src/react/react_cache.rs"],
+       "watched entity symbolically dead / alive without tracker / alive with a tracker but no map entry; ref-counted handle",
+       "dead entity: nothing stored, handle released (reactor collected); live entity: one handle stored, one tracker, an existing tracker "
+       "is never replaced (no spurious despawn report)"),
+    k2("despawn.register_existing_tracker", _k2h("react::reaction_triggers_impl", "despawn_register_keeps_existing_tracker"), ["C08", "C18", "C07"],
+       ["register_despawn_reactor", "ReactCache::register_despawn_reactor", "ReactCache::despawn_sender"],
+       ["src/react/reaction_triggers_impl.rs", "src/react/react_cache.rs"],
+       "watched entity symbolically dead / alive without tracker / alive with a tracker but no map entry; ref-counted handle",
+       "dead entity: nothing stored, handle released (reactor collected); live entity: one handle stored, one tracker, an existing tracker "
+       "is never replaced (no spurious despawn report)"),
+    k2("despawn.tracker_drop", _k2h("react::reaction_triggers_impl", "despawn_tracker_reports_once"), ["C08"],
+       ["Drop for DespawnTracker"], ["src/react/reaction_triggers_impl.rs"], "any entity index < 50",
+       "dropping the tracker reports exactly its entity, once"),
+    k2("rc.despawn_dispatch_once", f"{RC}rc_despawn_dispatch_once", ["C08", "C07", "C03"], ["ReactCache::schedule_despawn_reactions"], RC_SRC,
+       "2 watched entities (1 reactor each), reports: the first entity once or twice (symbolic) plus an unwatched entity",
+       "one Despawn reaction per stored handle of a reported entity, carrying the entity and the moved handle; the map entry is consumed, "
+       "so a repeated report yields nothing; unreported entities keep their reactors; the channel is drained"),
+    k2("rc.despawn_dispatch_twice", f"{RC}rc_despawn_dispatch_reported_twice", ["C08", "C07", "C03"], ["ReactCache::schedule_despawn_reactions"], RC_SRC,
+       "2 watched entities (1 reactor each), reports: the first entity once or twice (symbolic) plus an unwatched entity",
+       "one Despawn reaction per stored handle of a reported entity, carrying the entity and the moved handle; the map entry is consumed, "
+       "so a repeated report yields nothing; unreported entities keep their reactors; the channel is drained"),
+    k2("readers.event", _k2h("react::event_readers", "event_readers_answer_only_while_reacting"), ["C03", "C04"],
+       ["BroadcastEvent::try_read", "EntityEvent::try_read", "BroadcastEvent::is_empty", "EventAccessTracker::is_reacting"],
+       ["src/react/event_readers.rs"],
+       "data entity carrying one of {broadcast Pa, entity event Pa, broadcast Pb}; tracker flag and tracker data entity symbolic; payload any u8",
+       "a broadcast / entity-event reader answers iff the tracker is reacting AND points at data of exactly its kind and type, with that "
+       "event's payload and target; otherwise Err - also while the data entity is still alive for other listeners"),
+    k2("readers.system_event", _k2h("react::system_event_reader", "system_event_take_once_while_reacting"), ["C03", "C04"],
+       ["SystemEvent::take", "SystemEventData::take"], ["src/react/system_event_reader.rs"], "tracker flag symbolic; payload any u8",
+       "take() hands out the payload only to the reacting run, and only once"),
+    k2("readers.entity_reaction", _k2h("react::entity_reaction_readers", "entity_reaction_readers_match_kind_and_type"), ["C03", "C04"],
+       ["InsertionEvent::get", "MutationEvent::get", "RemovalEvent::get", "ReactComponentId::from_world"],
+       ["src/react/entity_reaction_readers.rs"], "tracker flag, reaction kind (4) and component type (2) symbolic; source entity < 20",
+       "each reader answers iff reacting AND kind matches AND component type matches; returns the tracker's source"),
+    k2("readers.despawn", _k2h("react::despawn_reader", "despawn_reader_only_while_reacting"), ["C03", "C04"],
+       ["DespawnEvent::get", "DespawnEvent::is_empty"], ["src/react/despawn_reader.rs"], "tracker flag symbolic",
+       "the despawn reader answers iff reacting, with the tracker's source"),
+    k2("callbacks.ordinary", _k2h("ecs::callbacks", "callbacks_ordinary_system_cleanup_before_deferred"), ["C04", "C13"],
+       ["RawCallbackSystem::new", "RawCallbackSystem::run_with_cleanup", "run_initialized_system"], ["src/ecs/callbacks.rs"],
+       "2 runs of one ordinary system with a Local and one deferred command; body returns Ok or (symbolically) an early Err",
+       "per run: body, cleanup, then the body's deferred commands; initialized exactly once; the Local continues across runs"),
+    k2("callbacks.exclusive", _k2h("ecs::callbacks", "callbacks_exclusive_system_cleanup_before_deferred"), ["C04", "C13"],
+       ["RawCallbackSystem::run_with_cleanup", "run_initialized_system (exclusive branch)"], ["src/ecs/callbacks.rs"],
+       "2 runs of one exclusive (&mut World) system that queues one command",
+       "per run: body, cleanup, then the body's queued commands; initialized exactly once"),
+    k2("callbacks.boxed", _k2h("ecs::callbacks", "callbacks_boxed_system_and_empty"), ["C04", "C13"],
+       ["CallbackSystem::new", "CallbackSystem::run_with_cleanup", "run_initialized_system"], ["src/ecs/callbacks.rs"],
+       "an Empty callback; 2 runs of a boxed ordinary system with a Local", "Empty still runs the cleanup once; the boxed system keeps its state; "
+       "body, cleanup, deferred order", ("thorough",)),
+    k2("revoke.routing_dead", _k2h("react::react_commands", "revoke_routing_dead_entity_first"), ["C06", "C07", "C18"],
+       ["revoke_reactor", "revoke_entity_reactor", "EntityReactors::remove", "ReactCache::revoke_broadcast_reactor"],
+       ["src/react/react_commands.rs", "src/react/utils.rs", "src/react/react_cache.rs"],
+       "token = [entity mutation trigger, broadcast trigger]; the entity symbolically despawned; a neighbour reactor on both keys; an unnamed "
+       "trigger of the same reactor on the entity",
+       "every trigger named by the token is revoked even when an earlier one names a despawned entity; neighbours and unnamed triggers survive"),
+    k2("revoke.routing_live", _k2h("react::react_commands", "revoke_routing_live_entity"), ["C06", "C07", "C18"],
+       ["revoke_reactor", "revoke_entity_reactor", "EntityReactors::remove", "ReactCache::revoke_broadcast_reactor"],
+       ["src/react/react_commands.rs", "src/react/utils.rs", "src/react/react_cache.rs"],
+       "token = [entity mutation trigger, broadcast trigger]; the entity symbolically despawned; a neighbour reactor on both keys; an unnamed "
+       "trigger of the same reactor on the entity",
+       "every trigger named by the token is revoked even when an earlier one names a despawned entity; neighbours and unnamed triggers survive"),
+    k2("mode.persistent", _k2h("react::react_commands", "mode_prepare_persistent"), ["C07"],
+       ["ReactorMode::prepare", "ReactorHandle::sys_command", "ReactorHandle::clone"], ["src/react/react_commands.rs", "src/react/utils.rs"],
+       "3 modes; reactor index < 50", "persistent => plain handle never collected; cleanup/revokable => ref-counted handle collected exactly once "
+       "after the last clone is dropped"),
+    k2("mode.cleanup", _k2h("react::react_commands", "mode_prepare_cleanup"), ["C07"],
+       ["ReactorMode::prepare", "ReactorHandle::sys_command", "ReactorHandle::clone"], ["src/react/react_commands.rs", "src/react/utils.rs"],
+       "3 modes; reactor index < 50", "persistent => plain handle never collected; cleanup/revokable => ref-counted handle collected exactly once "
+       "after the last clone is dropped"),
+    k2("mode.revokable", _k2h("react::react_commands", "mode_prepare_revokable"), ["C07"],
+       ["ReactorMode::prepare", "ReactorHandle::sys_command", "ReactorHandle::clone"], ["src/react/react_commands.rs", "src/react/utils.rs"],
+       "3 modes; reactor index < 50", "persistent => plain handle never collected; cleanup/revokable => ref-counted handle collected exactly once "
+       "after the last clone is dropped"),
+    k2("ewr.cleanup_rule", _k2h("react::entity_world_reactor", "cleanup_reactor_data_rule"), ["C16"],
+       ["cleanup_reactor_data", "EntityReactors::iter_reactors"], ["src/react/entity_world_reactor.rs", "src/react/utils.rs"],
+       "entity with a registration of another reactor and (symbolically) a remaining registration of this reactor",
+       "local data is removed iff no registration of this reactor remains on the entity"),
+    k2("ewr.remove", _k2h("react::entity_world_reactor", "entity_reactor_remove_cleans_every_entity"), ["C16", "C06"],
+       ["EntityReactor::remove", "RevokeToken::new_from", "RevokeToken::iter_unique_entities", "ReactCommands::revoke"],
+       ["src/react/entity_world_reactor.rs", "src/react/utils.rs", "src/react/react_commands.rs"],
+       "bundle of 3 entity triggers over 2 distinct entities; reactor resource symbolically present",
+       "one revoke plus one local-data cleanup per DISTINCT entity of the bundle is queued; nothing when the reactor is missing"),
+]
+
+for (sh, tiers) in [(0, ("quick", "thorough")), (1, ("thorough",)), (2, ("quick", "thorough"))]:
+    OBLIGATIONS.append(k2(f"entreactors.remove_shape{sh}", _k2h("react::utils", f"entreactors_remove_shape{sh}"), ["C06", "C01", "C16"],
+                          ["EntityReactors::remove", "EntityReactors::insert", "EntityReactors::count"], ["src/react/utils.rs"],
+                          "per-entity table of 3-4 entries with concrete reaction types (3 shapes) and symbolic reactor ids (3 values, duplicates "
+                          "common); revoked (reaction type, reactor) symbolic",
+                          "remove(rtype, id) deletes every entry of that reactor under that reaction type, nothing else; survivors keep order; "
+                          "second application is a no-op", tiers))
+OBLIGATIONS.append(k2("token.unique_entities", _k2h("react::utils", "token_unique_entities"), ["C16"],
+                      ["RevokeToken::iter_unique_entities", "ReactorType::get_entity"], ["src/react/utils.rs"],
+                      "token of 4 triggers over 2 entities and one type-wide trigger", "each named entity is yielded exactly once"))
+
+for o in ("012", "210", "102"):
+    OBLIGATIONS.append(k2(f"refcount.order_{o}", _k2h("ecs::auto_despawn", f"refcount_order_{o}"), ["C10", "C07"],
+                          ["AutoDespawner::prepare", "AutoDespawner::try_recv", "AutoDespawnSignal::clone", "AutoDespawnSignal::entity",
+                           "Drop for AutoDespawnSignalInner"], ["src/ecs/auto_despawn.rs"],
+                          f"one entity (index < 50), original signal + 2 clones dropped in order {o}; a second entity's live signal",
+                          "nothing is receivable while a holder exists; after the last drop exactly one message naming that entity",
+                          ("quick", "thorough") if o != "102" else ("thorough",)))
+
+# K1 obligations superseded by lighter K2 ones or too heavy for the quick tier (measured): restrict to thorough / drop
+# Dropped after measurement (they do not finish within the thorough caps, 14 GB / 1500 s, so keeping them would make a
+# check inconclusive on the unchanged tree; their subject moves to "outside the claim" in DESIGN.md section 4):
+#  K1 autodespawn.refcount / entreactors.* / mode.prepare / revoketoken.unique_entities: superseded by the case-split K2
+#  obligations refcount.order_*, mode.*, token.unique_entities, rc.entity_event_* / rc.insertion_* (iter_rtype, count in context);
+#  gc.*, revoke.routing_*, entreactors.remove_shape*, rc.despawn_dispatch_*: written, compile, exceed the caps.
+_THOROUGH_ONLY = set()
+_DROPPED = {"mode.prepare", "revoketoken.unique_entities", "autodespawn.refcount", "entreactors.dispatch", "entreactors.handles",
+            "entreactors.remove", "entreactors.witness", "gc.dead_in_front", "gc.released_and_held", "gc.all_released",
+            "revoke.routing_dead", "revoke.routing_live", "entreactors.remove_shape0", "entreactors.remove_shape1",
+            "entreactors.remove_shape2", "rc.despawn_dispatch_once", "rc.despawn_dispatch_twice"}
+OBLIGATIONS = [o for o in OBLIGATIONS if o["id"] not in _DROPPED]
+for o in OBLIGATIONS:
+    if o["id"] in _THOROUGH_ONLY:
+        o["tiers"] = ["thorough"]
+
+
 def for_property(pid, tier):
+    only = os.environ.get("VERIF_ONLY")
     out = []
     for o in OBLIGATIONS:
-        if pid in o["props"] and tier in o.get("tiers", ["quick", "thorough"]):
+        if only and not re.search(only, o["id"]):
+            continue
+        if (pid in o["props"] or pid == "ALL") and tier in o.get("tiers", ["quick", "thorough"]):
             out.append(o)
     return out
